@@ -73,13 +73,21 @@ pub fn embed_contexts(path: &[u8]) -> Vec<Vec<u8>> {
 			out.push(t);
 		}
 	}
+	// a query / fragment that itself looks like "scheme://authority" (what precedes the path decides
+	// how it may be written, never what follows it)
+	for (pre, suf) in [("", "?n=s://h/#f"), ("", "#x://y"), ("s:", "?n=t://g/")] {
+		let mut t = pre.as_bytes().to_vec();
+		t.extend_from_slice(path);
+		t.extend_from_slice(suf.as_bytes());
+		out.push(t);
+	}
 	out
 }
 
 pub fn run(ctx: &Ctx) -> Report {
 	let refs = Refs::new(&ctx.root);
 	let mut total = Report::new();
-	total.rule = "every path text {relative,absolute} x SEG^{<=n} accepted by the reference DFA, plus threshold paths (15..40 segments, 510..2000 bytes); each stand-alone (iterator, normalised copy, in-place) and embedded in p, s:p, //h p, s://h p, // p, s:// p with and without ?q#f where the composition is valid and re-splits to the same path; non-trivial = distinct path text containing a dot segment, or distinct embedding".into();
+	total.rule = "every path text {relative,absolute} x SEG^{<=n} accepted by the reference DFA, plus threshold paths (15..40 segments, 510..2000 bytes); each stand-alone (iterator, normalised copy, in-place) and embedded in p, s:p, //h p, s://h p, // p, s:// p with and without ?q#f (and with a query / fragment that looks like scheme://authority) where the composition is valid and re-splits to the same path; non-trivial = distinct path text containing a dot segment, or distinct embedding".into();
 	let plans: Vec<(u8, usize)> = if ctx.quick() { vec![(0, 6), (1, 4)] } else { vec![(0, 8), (1, 5), (2, 4)] };
 	let mut seen: std::collections::HashSet<(Family, Vec<u8>)> = std::collections::HashSet::new();
 	for f in Family::active() {
